@@ -34,11 +34,26 @@ def rmask(rng, N, k):
 
 def rmap(rng, model, n, depth=None, signs=True):
     """valid Clifford map on n qubits: random rotations of the identity table + random sign flips"""
-    depth = depth if depth is not None else rng.randint(0, 3 * n + 2)
+    # structured as well as scrambled tables: a fifth of the draws are shallow (0-2 rotations of the identity table: basis / product-like),
+    # and the sign pattern is one of: independent coins on all rows, only on the Z-images (stabilizer signs), only on the X-images, a single row, none
+    if depth is None:
+        depth = rng.randint(0, 2) if rng.random() < 0.2 else rng.randint(0, 3 * n + 2)
     gms = [[rpauli(rng, n, herm=True, nonzero=True), None] for _ in range(depth)]
     rows = model.call('rotate_seq', gms, identity_rows(n))
     if signs:
-        rows = [[g, (p + rng.choice([0, 2])) % 4] for g, p in rows]
+        mode = rng.choice(['all', 'all', 'all', 'z_rows', 'x_rows', 'one', 'none'])
+        if mode == 'all':
+            flips = [rng.choice([0, 2]) for _ in rows]
+        elif mode == 'z_rows':
+            flips = [rng.choice([0, 2]) if j % 2 == 1 else 0 for j in range(len(rows))]
+        elif mode == 'x_rows':
+            flips = [rng.choice([0, 2]) if j % 2 == 0 else 0 for j in range(len(rows))]
+        elif mode == 'one':
+            k = rng.randrange(len(rows)) if rows else 0
+            flips = [2 if j == k else 0 for j in range(len(rows))]
+        else:
+            flips = [0] * len(rows)
+        rows = [[g, (p + f) % 4] for (g, p), f in zip(rows, flips)]
     return rows
 
 
